@@ -99,13 +99,46 @@ def fold(prog, module, expr, env=None, depth=0):
             except Exception as e:
                 raise Unknown(str(e))
         if isinstance(expr.func, ast.Attribute) and expr.func.attr in (
-                'encode', 'lower', 'upper', 'strip') and not expr.keywords:
+                'encode', 'lower', 'upper', 'strip', 'join', 'format',
+                'replace') and not expr.keywords:
             base = fold(prog, module, expr.func.value, env, depth + 1)
             args = [fold(prog, module, a, env, depth + 1) for a in expr.args]
             try:
                 return getattr(base, expr.func.attr)(*args)
             except Exception as e:
                 raise Unknown(str(e))
+        # a pure module-level helper: ``def f(a, b='x'): return <expr>``
+        if isinstance(expr.func, ast.Name) and \
+                expr.func.id in getattr(module, 'functions', {}):
+            fn = module.functions[expr.func.id].node
+            body = [st for st in fn.body if not (
+                isinstance(st, ast.Expr) and isinstance(
+                    st.value, ast.Constant) and isinstance(
+                    st.value.value, str))]
+            a_ = fn.args
+            if len(body) == 1 and isinstance(body[0], ast.Return) and \
+                    body[0].value is not None and not a_.vararg and \
+                    not a_.kwarg and not any(
+                        isinstance(x, ast.Starred) for x in expr.args) and \
+                    all(k.arg is not None for k in expr.keywords):
+                names = [p.arg for p in a_.args]
+                newenv = {}
+                defaults = dict(zip(names[len(names) - len(a_.defaults):],
+                                    a_.defaults))
+                for nm, dv in defaults.items():
+                    newenv[nm] = fold(prog, module, dv, None, depth + 1)
+                if len(expr.args) > len(names):
+                    raise Unknown('arity')
+                for nm, av in zip(names, expr.args):
+                    newenv[nm] = fold(prog, module, av, env, depth + 1)
+                for k in expr.keywords:
+                    if k.arg not in names:
+                        raise Unknown('keyword')
+                    newenv[k.arg] = fold(prog, module, k.value, env,
+                                         depth + 1)
+                if set(names) - set(newenv):
+                    raise Unknown('unbound parameter')
+                return fold(prog, module, body[0].value, newenv, depth + 1)
         raise Unknown('call ' + str(d))
     raise Unknown(type(expr).__name__)
 
